@@ -50,3 +50,50 @@ def hanzi_value(hi, lo):
     code = hi * 256 + lo
     diff = ite(code <= 0xaafe, code - 0xa1a1, code - 0xa6a1)
     return (diff // 256) * 0x60 + diff % 256
+
+
+# ---------------------------------------------------------------- field-level specification of the packers
+def field_count(mode, n):
+    """number of fields the n bytes of a part are packed into"""
+    if mode == 'numeric':
+        return (n + 2) // 3
+    if mode == 'alphanumeric':
+        return (n + 1) // 2
+    if mode == 'byte':
+        return n
+    return n // 2
+
+
+def payload_bits(mode, n):
+    if mode == 'numeric':
+        r = n % 3
+        return 10 * (n // 3) + ite(r == 0, 0, ite(r == 1, 4, 7))
+    if mode == 'alphanumeric':
+        return 11 * (n // 2) + 6 * (n % 2)
+    if mode == 'byte':
+        return 8 * n
+    return 13 * (n // 2)
+
+
+def char_count(mode, n):
+    return n // 2 if mode in ('kanji', 'hanzi') else n
+
+
+def field(mode, at, n, g):
+    """(value, width) of field g (0 <= g < field_count) for the byte sequence at(0..n-1)"""
+    if mode == 'numeric':
+        d0, d1, d2 = at(3 * g) - 48, at(3 * g + 1) - 48, at(3 * g + 2) - 48
+        ln = ite(3 * g + 3 <= n, 3, n - 3 * g)
+        val = ite(ln == 3, 100 * d0 + 10 * d1 + d2, ite(ln == 2, 10 * d0 + d1, d0))
+        return val, 3 * ln + 1
+    if mode == 'alphanumeric':
+        v0, v1 = alnum_value(at(2 * g)), alnum_value(at(2 * g + 1))
+        full = 2 * g + 2 <= n
+        return ite(full, 45 * v0 + v1, v0), ite(full, 11, 6)
+    if mode == 'byte':
+        return at(g), 8
+    if mode == 'kanji':
+        return kanji_value(at(2 * g), at(2 * g + 1)), 13
+    if mode == 'hanzi':
+        return hanzi_value(at(2 * g), at(2 * g + 1)), 13
+    raise ValueError(mode)
